@@ -99,7 +99,20 @@ def _exc(ex):
     return [type(ex).__name__, str(ex)[:300]]
 
 
+_NP = False      # scenario flag np_inputs: numbers handed as numpy.float64
+
+
+def npv(v):
+    """The number as the caller of this scenario writes it: a Python float,
+    or the same number as a numpy.float64 (which is a float)."""
+    if _NP and type(v) is float:
+        return _np_float(v)
+    return v
+
+
 def Q(cls, q):
+    if _NP:
+        q = [npv(q[0])] + list(q[1:])
     if len(q) > 2 and q[2] != q[1]:
         # the user built the quantity in unit q[2] and converted it IN PLACE
         # to q[1] before handing it to the library
@@ -165,10 +178,10 @@ def declare(ctx, d):
     if d['op'] == 'joint':
         g.utils.add_fixed_joint(master=m, slave=s)
     elif d['op'] == 'gear':
-        g.utils.add_gear_mating(master=m, slave=s, efficiency=d['eff'])
+        g.utils.add_gear_mating(master=m, slave=s, efficiency=npv(d['eff']))
     elif d['op'] == 'worm':
         g.utils.add_worm_gear_mating(master=m, slave=s,
-                                     friction_coefficient=d['f'])
+                                     friction_coefficient=npv(d['f']))
     else:
         raise AssertionError(d['op'])
 
@@ -253,7 +266,7 @@ def make_rule_classes():
             ctx = self.ctx
             rec = observe(ctx, self.index, self.spec)
             k = rec['k']
-            p = self.table.get(k, self.spec.get('default'))
+            p = npv(self.table.get(k, self.spec.get('default')))
             rec['p'] = p
             rec['ptype'] = type(p).__name__
             ctx.rule_calls.append(rec)
@@ -292,7 +305,7 @@ def build_rule(ctx, index, spec):
         inner = R.ConstantPWM(
             timer=S.Timer(start_time=Q(U.Time, spec['start']),
                           duration=Q(U.TimeInterval, spec['duration'])),
-            powertrain=ctx.pt, target_pwm_value=spec['value'])
+            powertrain=ctx.pt, target_pwm_value=npv(spec['value']))
     elif k == 'ReachAngularPosition':
         inner = R.ReachAngularPosition(
             encoder=S.AbsoluteRotaryEncoder(target=ctx.objs[spec['enc']]),
@@ -304,7 +317,7 @@ def build_rule(ctx, index, spec):
             encoder=S.AbsoluteRotaryEncoder(target=ctx.objs[spec['enc']]),
             powertrain=ctx.pt,
             target_angular_position=Q(U.AngularPosition, spec['target']),
-            pwm_min_multiplier=spec['mult'], pwm_min=spec.get('pwm_min'))
+            pwm_min_multiplier=npv(spec['mult']), pwm_min=npv(spec.get('pwm_min')))
     elif k == 'StartLimitCurrent':
         inner = R.StartLimitCurrent(
             encoder=S.AbsoluteRotaryEncoder(target=ctx.objs[spec['enc']]),
@@ -589,6 +602,8 @@ def _execute(scn, keep_objects=False, prev_ctx=None):
     """One phase.  With prev_ctx the element objects of the previous phase
     are reused (only scn['phase_decls'] are declared, on top of what is
     already declared) and a new Powertrain is assembled."""
+    global _NP
+    _NP = bool(scn.get('np_inputs'))
     g = gp()
     U = g.units
     ctx = Ctx()
@@ -717,7 +732,7 @@ def _execute(scn, keep_objects=False, prev_ctx=None):
         last.angular_position = Q(U.AngularPosition, init['position'])
         last.angular_speed = Q(U.AngularSpeed, init['speed'])
         if init.get('pwm') is not None and with_pwm:
-            ctx.objs[ctx.chain[0]].pwm = init['pwm']
+            ctx.objs[ctx.chain[0]].pwm = npv(init['pwm'])
     if init is not None:
         apply_ic()
 
@@ -784,7 +799,19 @@ def _execute(scn, keep_objects=False, prev_ctx=None):
                     apply_ic(op.get('reapply_pwm', True))
             elif kind == 'set_pwm':
                 try:
-                    pt.elements[0].pwm = op['value']
+                    pt.elements[0].pwm = npv(op['value'])
+                except Exception as ex:      # noqa
+                    rec['exc'] = _exc(ex)
+            elif kind == 'set_state':
+                # the user re-references the output between two runs: a new
+                # position and/or speed assigned to the last element
+                try:
+                    last = ctx.objs[ctx.chain[-1]]
+                    if op.get('position') is not None:
+                        last.angular_position = Q(U.AngularPosition,
+                                                  op['position'])
+                    if op.get('speed') is not None:
+                        last.angular_speed = Q(U.AngularSpeed, op['speed'])
                 except Exception as ex:      # noqa
                     rec['exc'] = _exc(ex)
             elif kind == 'snapshot':
